@@ -84,6 +84,16 @@ def run(chk):
                 o, v, d = single_return(outs)
                 if o is not None:
                     v, d = check_lexcmp(o.value, n)
+                elif len(returns(outs)) > 1:
+                    # comparison written as control flow (explicit loop with early returns)
+                    order = lex_order(outs, sym_words(n, "a"), sym_words(n, "b"))
+                    T = table_words(n)
+                    if order == list(range(T - 1, -1, -1)):
+                        v, d = PROVED, ""
+                    elif order is not None and T > 1:
+                        v, d = REFUTED, "blocks are compared in the order %s, not most significant first" % order
+                    else:
+                        v, d = UNDECIDED, "comparison control flow not recognised"
             except Undecided as e:
                 v, d = UNDECIDED, e.cause
             chk.add("C08.O", key, v, d, where=where_of(ob), sample=dict(obligation=key, verdict=v) if n == 7 else None)
@@ -97,6 +107,15 @@ def run(chk):
                         v, d = check_lexcmp(r.fields[0], n)
                     else:
                         v, d = (REFUTED, "partial_cmp returns None") if isinstance(r, Agg) and r.key == OPTION else (UNDECIDED, "result %r" % (r,))
+                elif len(returns(outs)) > 1:
+                    order = lex_order(outs, sym_words(n, "a"), sym_words(n, "b"), unwrap_some=True)
+                    T = table_words(n)
+                    if order == list(range(T - 1, -1, -1)):
+                        v, d = PROVED, ""
+                    elif order is not None and T > 1:
+                        v, d = REFUTED, "blocks are compared in the order %s, not most significant first" % order
+                    else:
+                        v, d = UNDECIDED, "comparison control flow not recognised"
             except Undecided as e:
                 v, d = UNDECIDED, e.cause
             chk.add("C08.O", key, v, d, where=where_of(pb))
